@@ -776,3 +776,64 @@ Proof.
   match type of H with Some ?x = Some _ => assert (E : c = x) by congruence; rewrite E end.
   apply snorm_normal.
 Qed.
+
+(* ================================================================== unsupported ZRANGE options *)
+(* the options ZRANGE understands: WITHSCORES and REV, in any letter case *)
+Definition zrange_supported (w : bytes) : bool :=
+  is (lower w) (B "withscores") || is (lower w) (B "rev").
+
+Lemma zrange_opts_flags l o o' :
+  zrange_opts l o = ROk o' -> r_bylex o' = r_bylex o /\ r_limit o' = r_limit o.
+Proof.
+  revert o. induction l as [|w r IH]; intros o; cbn [zrange_opts].
+  - intros H; inversion H; subst; split; reflexivity.
+  - destruct (is (lower w) (B "withscores")); [intros H; apply IH in H; exact H|].
+    destruct (is (lower w) (B "rev")); [intros H; apply IH in H; exact H|discriminate].
+Qed.
+
+Lemma zrange_opts_never_byscore l o : zrange_opts l o <> RByScore.
+Proof.
+  revert o. induction l as [|w r IH]; intros o; cbn [zrange_opts]; [discriminate|].
+  destruct (is (lower w) (B "withscores")); [apply IH|].
+  destruct (is (lower w) (B "rev")); [apply IH|discriminate].
+Qed.
+
+Lemma zrange_opts_unsupported l o :
+  existsb (fun w => negb (zrange_supported w)) l = true -> zrange_opts l o = RSyntax.
+Proof.
+  revert o. induction l as [|w r IH]; intros o; cbn [existsb zrange_opts]; [discriminate|].
+  unfold zrange_supported.
+  destruct (is (lower w) (B "withscores")); [cbn; apply IH|].
+  destruct (is (lower w) (B "rev")); [cbn; apply IH|reflexivity].
+Qed.
+
+(* BYSCORE, BYLEX, LIMIT (any letter case) -- and any other word that is not WITHSCORES or REV --
+   anywhere among the options: an error reply, nothing changes, whatever the key holds *)
+Lemma exec_zrange_unsupported d name k a b optl :
+  existsb (fun w => negb (zrange_supported w)) optl = true ->
+  exec_zrange d (name :: k :: a :: b :: optl) = (err_other, d).
+Proof. intros H. unfold exec_zrange. rewrite (zrange_opts_unsupported optl ropts0 H). reflexivity. Qed.
+
+Lemma zrange_by_words_unsupported :
+  forallb (fun w => negb (zrange_supported w))
+          [B "byscore"; B "BYSCORE"; B "bylex"; B "ByLex"; B "limit"; B "LIMIT"] = true.
+Proof. vm_compute. reflexivity. Qed.
+
+(* conversely the whole option list is accepted exactly when every word is WITHSCORES or REV *)
+Lemma zrange_opts_supported l o :
+  forallb zrange_supported l = true -> exists o', zrange_opts l o = ROk o'.
+Proof.
+  revert o. induction l as [|w r IH]; intros o; cbn [forallb zrange_opts]; [eexists; reflexivity|].
+  unfold zrange_supported. intros H. apply andb_true_iff in H as [Hw Hr].
+  destruct (is (lower w) (B "withscores")); [apply IH; exact Hr|].
+  destruct (is (lower w) (B "rev")); [apply IH; exact Hr|discriminate Hw].
+Qed.
+
+Lemma zrange_options_exact (l : list bytes) :
+  (forallb zrange_supported l = true -> exists o, zrange_opts l ropts0 = ROk o) /\
+  (forall o, zrange_opts l ropts0 = ROk o -> r_bylex o = false /\ r_limit o = false) /\
+  zrange_opts l ropts0 <> RByScore.
+Proof.
+  split; [apply zrange_opts_supported|]. split; [|apply zrange_opts_never_byscore].
+  intros o H. exact (zrange_opts_flags l ropts0 o H).
+Qed.
